@@ -96,6 +96,7 @@ fn c19_parser_total_truncations_enum() {
 // @mem 24
 // @unwind_is_property yes
 // @modpath bed::autosql::parse::verif_kani_inner
+// @bodyfile autosql_inner.rs
 // @sub src/bed/autosql.rs ::: pub mod parse { ::: pub mod parse { #[cfg(kani)] #[allow(unused)] mod verif_kani_inner { include!("{HARNESS_DIR}/autosql_inner.rs"); }
 // @functions bed::autosql::parse::FieldType::try_parse (enum value list), parser::Parser::{peek_word, take, eat_one, eat_word, take_whitespace}
 // @bounds EVERY truncation (symbolic length 0..=10) of the field type text `enum(x,y) `: try_parse must return within the unwinding bound (14 per loop: inputs are at most 10 bytes) and never panic
@@ -112,6 +113,7 @@ fn c19_parser_total_truncations_enum() {
 // @mem 24
 // @unwind_is_property yes
 // @modpath bed::autosql::parse::verif_kani_inner
+// @bodyfile autosql_inner.rs
 // @sub src/bed/autosql.rs ::: pub mod parse { ::: pub mod parse { #[cfg(kani)] #[allow(unused)] mod verif_kani_inner { include!("{HARNESS_DIR}/autosql_inner.rs"); }
 // @functions bed::autosql::parse::FieldType::try_parse (set value list), parser::Parser::*
 // @bounds EVERY truncation (symbolic length 0..=10) of the field type text `set(a, b) `
@@ -127,6 +129,7 @@ fn c19_parser_total_truncations_enum() {
 // @mem 24
 // @unwind_is_property yes
 // @modpath bed::autosql::parse::verif_kani_inner
+// @bodyfile autosql_inner.rs
 // @sub src/bed/autosql.rs ::: pub mod parse { ::: pub mod parse { #[cfg(kani)] #[allow(unused)] mod verif_kani_inner { include!("{HARNESS_DIR}/autosql_inner.rs"); }
 // @functions bed::autosql::parse::FieldType::try_parse (enum value list loop), parser::Parser::{peek_word, take, eat_one, eat_word, take_whitespace}
 // @bounds input = `enum(` followed by every string of length 0..=2 over { ( ) space , ; a }, then end of input; the value-list loop must exit within 10 iterations (inputs have at most 2 characters after the bracket) and never panic
@@ -143,9 +146,42 @@ fn c19_parser_total_truncations_enum() {
 // @mem 24
 // @unwind_is_property yes
 // @modpath bed::autosql::parse::verif_kani_inner
+// @bodyfile autosql_inner.rs
 // @sub src/bed/autosql.rs ::: pub mod parse { ::: pub mod parse { #[cfg(kani)] #[allow(unused)] mod verif_kani_inner { include!("{HARNESS_DIR}/autosql_inner.rs"); }
 // @functions bed::autosql::parse::FieldType::try_parse (set value list loop), parser::Parser::*
 // @bounds as c19_enum_list_terminates with `set(`
 // @stubs alloc::fmt::format -> empty string
 // @witness cover: some input parses
+// (harness body: harness/autosql_inner.rs)
+
+// @harness c19_enum_unterminated_inputfree
+// @props C19
+// @tier off
+// @kind stretch
+// @timeout 900
+// @mem 16
+// @unwind_is_property yes
+// @replay inputfree
+// @modpath bed::autosql::parse::verif_kani_inner
+// @bodyfile autosql_inner.rs
+// @sub src/bed/autosql.rs ::: pub mod parse { ::: pub mod parse { #[cfg(kani)] #[allow(unused)] mod verif_kani_inner { include!("{HARNESS_DIR}/autosql_inner.rs"); }
+// @functions bed::autosql::parse::FieldType::try_parse on the concrete text `enum(a` (no symbolic input: a witness run, not a claim about all inputs)
+// @bounds concrete input; every loop must exit within 12 iterations
+// @stubs alloc::fmt::format -> empty string
+// (harness body: harness/autosql_inner.rs)
+
+// @harness c19_set_unterminated_inputfree
+// @props C19
+// @tier off
+// @kind stretch
+// @timeout 900
+// @mem 16
+// @unwind_is_property yes
+// @replay inputfree
+// @modpath bed::autosql::parse::verif_kani_inner
+// @bodyfile autosql_inner.rs
+// @sub src/bed/autosql.rs ::: pub mod parse { ::: pub mod parse { #[cfg(kani)] #[allow(unused)] mod verif_kani_inner { include!("{HARNESS_DIR}/autosql_inner.rs"); }
+// @functions bed::autosql::parse::FieldType::try_parse on the concrete text `set(`
+// @bounds concrete input; every loop must exit within 12 iterations
+// @stubs alloc::fmt::format -> empty string
 // (harness body: harness/autosql_inner.rs)
